@@ -238,6 +238,10 @@ def check_task(bag, rng, spec_vars, n_pos):
             if any(v[0] == "p" for v in spec_vars):
                 labels = {f"v{j}": list(task.variables[j].decode(list(range(len(v[1]))))) for j, v in enumerate(spec_vars) if v[0] == "p"}
             want = tasks.decode(spec_vars, m, labels)
+            for j_, v_ in enumerate(spec_vars):
+                # whatever order the labels are kept in, a decoded permutation consists of the DECLARED items themselves
+                if v_[0] == "p" and sorted((type(e).__name__, repr(e)) for e in got.get(f"v{j_}", [])) != sorted((type(e).__name__, repr(e)) for e in v_[1]):
+                    bad("transform-values", f"transform_solution({m!r})[v{j_}] = {got.get(f'v{j_}')!r} is not a rearrangement of the declared items {v_[1]!r}")
             if list(got.keys()) != list(want.keys()):
                 bad("transform-keys", f"transform_solution keys {list(got.keys())!r}, declared variables {list(want.keys())!r}")
             elif json.dumps(canon(got), sort_keys=True) != json.dumps(canon(want), sort_keys=True):
